@@ -53,3 +53,28 @@ _frame_assumptions = [
 for p in ("C01", "C03", "C06", "C07", "C17"):
     PROPERTY_META.setdefault(p, {"assumptions": [], "trusted_base": []})
     PROPERTY_META[p]["assumptions"] += _frame_assumptions
+
+# --------------------------------------------------------------------------
+# libxcm/core/xcm.c: blocking loops and non-blocking pass-through over a
+# MESSAGING/BYTESTREAM contract mock and an interruptible poll() stub
+# --------------------------------------------------------------------------
+CORE = {
+    "MSEND_B": (["C01", "C03", "C04", "C06"], "blocking xcm_send, messaging: same message on every retry, accepted at most once, -1/EINTR only before acceptance, returns after finish"),
+    "BSEND_B": (["C02", "C03", "C04", "C06"], "blocking xcm_send, byte stream: retries continue after the accepted bytes, return value = bytes accepted, failure only if none"),
+    "RECV_B": (["C01", "C02", "C04", "C06"], "blocking xcm_receive: awaits RECEIVABLE, passes buffer/capacity/result through, never EAGAIN"),
+    "SETBLOCK": (["C04"], "xcm_set_blocking(true) finishes outstanding work first"),
+    "NB": (["C05", "C04", "C16", "C01", "C02"], "every public data-path call on a non-blocking socket: exactly one transport call, no poll()"),
+}
+for op, (props, desc) in CORE.items():
+    ob("core.%s" % op.lower(), "core/core.c", ["-DOP_" + op, "-DRMAX=2"], props, unwind=8, quick_only=True,
+       desc=desc + "; transport answers EAGAIN <= 2 times and <= 2 partial writes, poll() may be interrupted at every call")
+    ob("core.%s.r4" % op.lower(), "core/core.c", ["-DOP_" + op, "-DRMAX=4"], props, tier="thorough", unwind=12,
+       desc=desc + "; transport answers EAGAIN <= 4 times and <= 4 partial writes, poll() may be interrupted at every call")
+_core_assumptions = [
+    "xcm.c over a contract mock of the transport (xcm_tp_socket_send/receive/finish/update): MESSAGING send = accepted once (0) or refused (-1 EAGAIN / hard errno); BYTESTREAM send = 1..len leading bytes or -1",
+    "poll() stub: returns 1 (readable) or -1/EINTR at the solver's choice at every call; it is the only blocking primitive in xcm.c",
+    "bounded liveness: the mock stops answering EAGAIN after RMAX rounds (unwinding assertions prove the loops then end)",
+]
+for p in ("C01", "C02", "C03", "C04", "C05"):
+    PROPERTY_META.setdefault(p, {"assumptions": [], "trusted_base": []})
+    PROPERTY_META[p]["assumptions"] += _core_assumptions
